@@ -708,6 +708,9 @@ fn bytes_stream(driver: &Driver, st: &mut Stream, std: &mut Stream, seed: u64, c
     for ((rq, m), i) in reqs_d.iter().zip(resp.iter()).zip(imps.iter()) {
         std.case(rq, m, i, rq.len() > 600);
     }
+    // the hypothesis `DefaultZeroEvaluates` of `page_nth_bytes_partial3`, evaluated
+    let r0 = driver.ask(&["c07.dflt0".to_string()]);
+    std.case("c07.dflt0", &r0[0], "1", false);
     // the hypothesis `DerivedAgrees` of `page_nth_bytes_partial2`, evaluated on every object of every file
     let resp = driver.ask(&reqs_a);
     for (rq, m) in reqs_a.iter().zip(resp.iter()) {
